@@ -1,5 +1,8 @@
 """C12 — integer roots exact; derived parameters in range."""
 from ..runner import Stream
+from .. import params_streams
+
+EXTRA_MODULES = ["C12Params"]
 
 RULE = ("isqrt/iroot/ct_sqrt ops at k^n-1,k^n,k^n+1 around powers of two and ten, rounding cliffs 2^53/2^106, "
         "2^126.., type maxima, plus seeded log-uniform random points; distinct = distinct (op,type,x) with x > 3")
@@ -83,4 +86,7 @@ def streams(ctx):
 
     def classify(op, res):
         return op.split()[0]
-    return [Stream("roots", ops, oracle=True, nontrivial=nontrivial, classify=classify, timeout=120)]
+    return [Stream("roots", ops, oracle=True, nontrivial=nontrivial, classify=classify, timeout=120)] + params_streams.c12_streams(ctx)
+
+
+search = params_streams.params_search
